@@ -157,6 +157,8 @@ func c06scalar(c *vf.Ctx, i int) *big.Int {
 		return new(big.Int).SetBytes(b)
 	case i < 64:
 		return new(big.Int).Lsh(big.NewInt(1), 255)
+	case i < 66: // 1/2 and -1/2 mod n: public points with a 166-bit x coordinate
+		return specialScalar(i)
 	case i%8 == 0: // random number of leading zero bytes
 		z := 1 + c.R.Intn(31)
 		b := c.R.Bytes(32)
@@ -635,7 +637,7 @@ func init() {
 		},
 		SelfTest: c06selfTest,
 		Streams: []*vf.Stream{
-			{Name: "roundtrip", N: func(t vf.Tier) int { return 64 + t.Sz(20000, 300000) }, Run: c06roundtripCase},
+			{Name: "roundtrip", N: func(t vf.Tier) int { return 66 + t.Sz(20000, 300000) }, Run: c06roundtripCase},
 			{Name: "corrupt", N: func(t vf.Tier) int { return t.Sz(6000, 60000) }, Run: c06corruptCase},
 			{Name: "forged", N: func(t vf.Tier) int { return t.Sz(9*800, 9*8000) }, Run: c06forgedCase},
 			{Name: "zero-digit-runs", N: func(t vf.Tier) int { return t.Sz(1200, 24000) }, Run: c06zeroRunCase},
